@@ -77,6 +77,13 @@ CHECKS.update({
    note=VS_NOTE + " Racing producers only on paths 1-2."),
 })
 
+CHECKS.update({
+ "C12": dict(engine="seqx", level=EX, design="§7 C12",
+   technique="bounded-exhaustive enumeration of token sequences x adversarial values x types on the real PatternFormatter against an independent reference of the documented mini-language (accept-sets where the documentation is silent)",
+   text="Every pattern up to the token bound over an alphabet covering every documented construct is formatted for every value of an adversarial list (as message and attribute value) and every type; the output must be in the accept-set computed by an independent reference written from the documentation on UTF-16 code units. Exhaustive within the bound; constructs the documentation leaves open are excluded and counted.",
+   note="Trusted: the reference (engine/seqx/c12.cpp, from docs/api/formatters.md and the property text); printable-ASCII category/file/function."),
+})
+
 PENDING = {}
 
 def main():
